@@ -85,6 +85,7 @@ type Config struct {
 	Intensity int // 0 calm, 1 medium, 2 hostile
 	Steps     int
 	Clients   bool // commands enter through real ClientIO.ExecCommand calls (C06)
+	WideSeq   bool // the shared clients number their commands from 2<<32, 1<<32 and 0: the identifiers (1,2<<32+i), (2,1<<32+i), (3,i) agree in every 32-bit window
 	NilSigs   bool // scripted actors may send messages with absent signature objects (C10-class)
 	Async     bool // asynchronous vote verification (goroutine per vote), as in production
 	FetchLoss int  // percent of block requests whose reply is lost while faults are allowed
@@ -101,6 +102,9 @@ func (c Config) String() string {
 	if c.RogueKey {
 		s += " roguekey"
 	}
+	if c.WideSeq {
+		s += " wideseq"
+	}
 	return s
 }
 
@@ -111,6 +115,7 @@ type Pending struct {
 	To   int
 	Msg  any
 	Step int
+	Held bool // delayed by one round already (bounded-delay rounds)
 }
 
 // TraceEntry is one scheduler step (for replay files and distinct-trace accounting).
@@ -519,6 +524,17 @@ func (c *Cluster) faultyIDs() map[hotstuff.ID]bool {
 
 // ---------------------------------------------------------------- commands
 
+// cmdKey identifies a command by the two numbers the client chose. The harness keeps its own key type: the
+// repository's MessageID is part of what is under test.
+type cmdKey struct {
+	ClientID       uint32
+	SequenceNumber uint64
+}
+
+func keyOf(cmd *clientpb.Command) cmdKey {
+	return cmdKey{ClientID: cmd.GetClientID(), SequenceNumber: cmd.GetSequenceNumber()}
+}
+
 type cmdFeed struct {
 	c       *Cluster
 	next    map[int]map[uint32]uint64 // actor idx -> client -> next seq to offer
@@ -526,16 +542,16 @@ type cmdFeed struct {
 	// client mode
 	mu       sync.Mutex
 	outcomes []Outcome
-	waiting  map[int]map[clientpb.MessageID]bool
+	waiting  map[int]map[cmdKey]bool
 	issued   map[int][]*clientpb.Command
 	recorded   atomic.Int64
 	closed     bool
 	submitted  map[int]int
 	recordedBy map[int]int
 	retry      []retryItem
-	done       map[int]map[clientpb.MessageID]bool
+	done       map[int]map[cmdKey]bool
 	retrying   bool
-	retried    map[int]map[clientpb.MessageID]int
+	retried    map[int]map[cmdKey]int
 }
 
 type retryItem struct {
@@ -546,18 +562,21 @@ type retryItem struct {
 // Outcome is what a client got back from one replica for one command.
 type Outcome struct {
 	Actor   int
-	ID      clientpb.MessageID
+	ID      cmdKey
 	Err     error
 	AtStep  int
 	Ordinal int64
 }
 
 func newCmdFeed(c *Cluster) *cmdFeed {
-	f := &cmdFeed{c: c, next: map[int]map[uint32]uint64{}, clients: 3, waiting: map[int]map[clientpb.MessageID]bool{}, issued: map[int][]*clientpb.Command{},
-		submitted: map[int]int{}, recordedBy: map[int]int{}, retried: map[int]map[clientpb.MessageID]int{}, done: map[int]map[clientpb.MessageID]bool{}}
+	f := &cmdFeed{c: c, next: map[int]map[uint32]uint64{}, clients: 3, waiting: map[int]map[cmdKey]bool{}, issued: map[int][]*clientpb.Command{},
+		submitted: map[int]int{}, recordedBy: map[int]int{}, retried: map[int]map[cmdKey]int{}, done: map[int]map[cmdKey]bool{}}
 	for _, a := range c.Actors {
 		f.next[a.Idx] = map[uint32]uint64{}
-		f.waiting[a.Idx] = map[clientpb.MessageID]bool{}
+		if c.Cfg.WideSeq {
+			f.next[a.Idx][1], f.next[a.Idx][2] = 2<<32, 1<<32
+		}
+		f.waiting[a.Idx] = map[cmdKey]bool{}
 	}
 	return f
 }
@@ -586,7 +605,7 @@ func (f *cmdFeed) submit(a *Actor, cmd *clientpb.Command) {
 		a.Node.Cmds.Add(cmd)
 		return
 	}
-	id := cmd.ID()
+	id := keyOf(cmd)
 	f.mu.Lock()
 	if f.waiting[a.Idx][id] || (f.done[a.Idx][id] && !f.retrying) {
 		f.mu.Unlock()
@@ -604,7 +623,7 @@ func (f *cmdFeed) submit(a *Actor, cmd *clientpb.Command) {
 			// an aborted command is offered again once, as the real client's retry would
 			if err != nil && strings.Contains(err.Error(), "forked") {
 				if f.retried[a.Idx] == nil {
-					f.retried[a.Idx] = map[clientpb.MessageID]int{}
+					f.retried[a.Idx] = map[cmdKey]int{}
 				}
 				if f.retried[a.Idx][id] < 1 {
 					f.retried[a.Idx][id]++
@@ -614,7 +633,7 @@ func (f *cmdFeed) submit(a *Actor, cmd *clientpb.Command) {
 		}
 		delete(f.waiting[a.Idx], id)
 		if f.done[a.Idx] == nil {
-			f.done[a.Idx] = map[clientpb.MessageID]bool{}
+			f.done[a.Idx] = map[cmdKey]bool{}
 		}
 		f.done[a.Idx][id] = true
 		f.recordedBy[a.Idx]++
